@@ -10,11 +10,37 @@ PATTERN = "0123456789abcdef" * 4 + "\n\"\u00e9\u2028\\ \r\n"
 
 def big_value(item):
     """the JSON value of a `big` item: a tools/call whose argument is a text of about `size`
-    characters containing line breaks, quotes, non-ASCII"""
+    characters containing line breaks, quotes, non-ASCII; or (`line_bytes`) an ASCII text sized so
+    that the compact line including its newline has exactly that many bytes"""
+    def val(text):
+        return {"jsonrpc": "2.0", "id": item.get("id", 7), "method": "tools/call",
+                "params": {"name": "store", "arguments": {"blob": text}}}
+    if "line_bytes" in item:
+        overhead = len(json.dumps(val(""), separators=(",", ":"))) + 1
+        return val("a" * max(0, int(item["line_bytes"]) - overhead))
     n = int(item["size"])
-    text = (PATTERN * (n // len(PATTERN) + 1))[:n]
-    return {"jsonrpc": "2.0", "id": item.get("id", 7), "method": "tools/call",
-            "params": {"name": "store", "arguments": {"blob": text}}}
+    return val((PATTERN * (n // len(PATTERN) + 1))[:n])
+
+
+class Duck:
+    """an object that is neither str, dict nor a library model but offers `model_dump` (the writer's
+    second-to-last resort)"""
+
+    def __init__(self, v):
+        self._v = v
+
+    def model_dump(self, exclude_none=False, **kw):
+        return {k: x for k, x in self._v.items() if not (exclude_none and x is None)}
+
+
+class DuckJson:
+    """… or only `model_dump_json`"""
+
+    def __init__(self, v):
+        self._v = v
+
+    def model_dump_json(self, exclude_none=False, **kw):
+        return json.dumps({k: x for k, x in self._v.items() if not (exclude_none and x is None)}, separators=(",", ":"))
 
 
 def build(item):
@@ -33,6 +59,12 @@ def build(item):
         return item["v"]
     if k == "raw":
         return item["s"]
+    if k == "duck":
+        return Duck(item["v"])
+    if k == "duckjson":
+        return DuckJson(item["v"])
+    if k == "other":  # JSON-able objects of other types reach the writer's last resort `json.dumps(message)`
+        return tuple(item["v"]) if item.get("tuple") else item["v"]
     if k == "typed":
         from chuk_mcp.protocol.messages import json_rpc_message as J
 
@@ -76,6 +108,10 @@ def expected_line(item):
         return {"json": item["v"]}
     if k == "raw":
         return {"text": item["s"]}
+    if k in ("duck", "duckjson"):
+        return {"json": {f: x for f, x in item["v"].items() if x is not None}}
+    if k == "other":  # not one of the three accepted shapes: the property does not say whether it is sent
+        return {"json": item["v"], "optional": True}
     if k == "typed":
         v = {"jsonrpc": "2.0"}
         v.update({f: x for f, x in item["f"].items() if x is not None})
@@ -107,6 +143,49 @@ def decode_lines(data: bytes):
         except ValueError:
             lines.append({"text": t})
     return {"lines": lines, "tail": tail.hex(), "cr": cr}
+
+
+def expected_lines(items):
+    """one entry per `repeat` of every item that must or may produce a line"""
+    out = []
+    for it in items:
+        e = expected_line(it)
+        if e is not None:
+            out += [e] * int(it.get("repeat", 1))
+    return out
+
+
+def line_matches(line, want) -> bool:
+    if "text" in want and "json" not in want:
+        return line.get("text") == want["text"]
+    return "json" in line and canon(line["json"]) == canon(want["json"])
+
+
+def align(lines, want, skippable=lambda ln: False, line_matches=line_matches, roles=None):
+    """Greedy alignment of the received lines with the expected ones (optional ones may be absent;
+    `skippable` lines - complete rejection errors of the reader task - may sit anywhere).
+    Returns (matched flags per expected entry, index of the first line that fits nothing or None, all consumed)."""
+    used = [False] * len(want)
+    i = 0
+    for n, ln in enumerate(lines):
+        j = i
+        while j < len(want) and not line_matches(ln, want[j]) and want[j].get("optional"):
+            j += 1
+        if j < len(want) and line_matches(ln, want[j]):
+            used[j] = True
+            i = j + 1
+            if roles is not None:
+                roles.append(j)
+            continue
+        if skippable(ln):
+            if roles is not None:
+                roles.append("skipped")
+            continue
+        if roles is not None:
+            roles.append("unmatched")
+        return used, n, False
+    rest_ok = all(w.get("optional") for w in want[i:])
+    return used, None, rest_ok
 
 
 def is_rejection(v) -> bool:
